@@ -759,6 +759,12 @@ def run(F, R, config=None):
     from . import c02
     K.borrow_rule(R, lambda sub: c02.r10(F, sub), "C08-R10", "no logarithm of a product reduction in the transformation / math code: finite positive scales and "
                   "eigenvalues give a finite log-determinant (C02-R10 analysis)", only_rules={"C02-R10"})
+    # the estimators run with the mass-matrix / window options the user configured
+    from . import convert
+    import re as _re
+    convert.faithful_conversion(F, R, "C08-R15", focus=lambda path, key: bool(_re.search(r"(?i)mass_matrix|lowrank|diag|window|eigval|gamma|switch_freq|update_freq|early|"
+                                                                                       r"EuclideanAdaptOptions|FlowSettings", key)),
+                                focus_text=" (mass-matrix and window options)")
     R.assume("user-supplied Math implementations other than CpuMath are outside the analysed world")
 
 
